@@ -27,6 +27,8 @@ THEOREMS = [
     "C05_callee_fresh",
     "C05_generated_good",
     "C05_facts_matter",
+    "C05_source_wrappers",
+    "C05_source_pop_whatever",
 ]
 RULE = (
     "random programs (depth <=3 quick / <=5 thorough) of decorated calls of three flavours, context "
